@@ -136,7 +136,9 @@ func init() {
 				c.Check(crossed, ks.key("drained-before:"+name+"@"+fn), c.Pos(cs.Instr), "crossed shutdown: entered from shutdownSent, which is only entered drained",
 					"state "+name+" can be entered while data is still pending or in flight")
 			}
-			c.Check(n == 5, "shutdown-entry-sites", "", "2 shutdownSent + 3 shutdownAckSent entry sites", fmt.Sprintf("%d entry sites", n))
+			// (an exact count would alarm on a behaviour-preserving merge: Shutdown()'s immediate entry
+			// duplicates what the write loop's drain path does anyway)
+			c.Check(n >= 2, "shutdown-entry-sites", "", fmt.Sprintf("%d entry sites into shutdownSent/shutdownAckSent", n), fmt.Sprintf("only %d entry sites into shutdownSent/shutdownAckSent", n))
 			// hasPendingOrInflightData = pending.size()>0 || inflight.size()>0
 			okP, okI := false, false
 			forEachInstr(has, func(in ssa.Instruction) {
